@@ -9,7 +9,8 @@ package main
 //	           creation order and the number of passes of the retry loop.
 //	maven      (root table)     both sides: the real resolver runs against a client
 //	           that answers from the table only; a call the table lacks is reported
-//	           as ("missing").  Run several times; differing results = ("nondet" ..).
+//	           as ("missing").  Run several times (the later runs on one shared
+//	           resolver); differing results = ("nondet" ..).
 //	maven_match (req ver)       semver.Maven constraint match, ground truth for the
 //	           direct oracle: 0/1, 2 = constraint does not parse; second field
 //	           1 = simple (soft) requirement.
@@ -501,9 +502,21 @@ const mavenRuns = 3
 func mavenTable(arg sx.V) sx.V {
 	root := sxVK(arg.Nth(0))
 	var first sx.V
+	// The first run uses a fresh resolver; the later runs share one resolver
+	// (and its client), as a caller that resolves repeatedly does: state kept
+	// by a resolver between calls shows up as a differing result.
+	var shared resolve.Resolver
+	var sharedClient *tableClient
 	for i := 0; i < mavenRuns; i++ {
 		tc := newTableClient(arg.Nth(1))
-		g, err := maven.NewResolver(tc).Resolve(context.Background(), root)
+		res := maven.NewResolver(tc)
+		if i >= 1 {
+			if shared == nil {
+				shared, sharedClient = res, tc
+			}
+			res, tc = shared, sharedClient
+		}
+		g, err := res.Resolve(context.Background(), root)
 		var obs sx.V
 		if tc.missing {
 			obs = sx.L(sx.Sym("missing"))
